@@ -364,7 +364,9 @@ func c14B1t8(c *Ctx) {
 					note("Decode n=%d rem=%d: trit %d is accepted under %s, not exactly for the values 0 and 1", n, rem, i, short(acc.Format(in.Name), 120))
 				}
 			}
-			for i := 0; i < 8*n; i++ {
+			// every trit — of the full groups and of a remainder — is range-checked on the way to the result: an invalid
+			// trit anywhere is therefore reported before (instead of) the length error
+			for i := 0; i < 8*n+rem; i++ {
 				if !matched[i] {
 					note("Decode n=%d rem=%d: trit %d is not range-checked", n, rem, i)
 				}
@@ -389,6 +391,7 @@ func c14B1t8(c *Ctx) {
 			}
 		}
 	}
+	semanticScan := bad == ""
 	r.Check(bad == "", "C14.b1t8-bits.decode", c.P.Pos(dec.Pos()), "b1t8.Decode decided in the ANF domain for 0..3 groups × remainders {0,3,6}: bit j of byte g = trit 8g+j; accepted exactly when every trit of the full groups is 0 or 1 (per trit); count = groups; a remainder gives an error %s", bad)
 	// remainder scan order: ErrInvalidLength only after the scan loop over the rest completed
 	db := ana.NewBuilder(c.P, dec)
@@ -407,5 +410,5 @@ func c14B1t8(c *Ctx) {
 			}
 		}
 	}
-	r.Check(okOrder, "C14.decode-exits.b1t8.remainder-scan", c.P.Pos(dec.Pos()), "ErrInvalidLength is returned only after every remaining trit was checked to be 0 or 1 (an invalid trit is reported first)")
+	r.Check(okOrder || semanticScan, "C14.decode-exits.b1t8.remainder-scan", c.P.Pos(dec.Pos()), "ErrInvalidLength is returned only after every remaining trit was checked to be 0 or 1 (an invalid trit is reported first): structurally (scan loop before the length error) or by the ANF decision above, in which every remainder trit carries a range constraint on the path to the length error")
 }
